@@ -175,7 +175,11 @@ def ptrLine (f : Oracle.Fam) (full : Bool) (x : Text) : String :=
   let apth := Parse.find_path x 0
   let aq := (Parse.find_query x 0).toOption
   let af := (Parse.find_fragment x 0).toOption
-  let acc := s!"ascheme={olocR as_} aauthority={olocR aa} apath={locR apth} aquery={olocR aq} afragment={olocR af}"
+  -- … and those of the authority
+  let aui := a.bind fun ar => (Parse.find_user_info (slice x ar) 0).map (shift ar.1)
+  let ahost := a.map fun ar => shift ar.1 (Parse.find_host (slice x ar) 0)
+  let aport := a.bind fun ar => (Parse.find_port (slice x ar) 0).map (shift ar.1)
+  let acc := s!"ascheme={olocR as_} aauthority={olocR aa} apath={locR apth} aquery={olocR aq} afragment={olocR af} auserinfo={olocR aui} ahost={olocR ahost} aport={olocR aport}"
   s!"whole={locR (0, x.length)} scheme={olocR s} authority={olocR a} path={locR p} query={olocR q} fragment={olocR fr} userinfo={olocR ui} host={olocR host} port={olocR port} first={olocR first} last={olocR last} fn={olocR fnm} dir={dir} par={par} poe={poe} base={locR (0, base.length)} nseg={nseg} segs_inside=1 allocs=0 {acc}"
 
 end IrefVerif.Model
